@@ -8,6 +8,30 @@ The life-cycle machines of `Model/Lifecycle.lean` with their RULE FLAGS DERIVED 
   * `retRule`, `momentRule`, `nuRule`, `crRule`, `toClones`     the rule flags of the machines
   * `advStepSrc`             the adversarial step function written over the three lifted boolean rules
   * `GSsrc`, `EGsrc`, `TOsrc`, `CRsrc`, `ADVsrc`                the machines under those flags
+  * `predictPureSrc c`       the PREDICT-PURITY FLAG of class `c`, derived from the lifted lists: nothing is rebound / stored
+                             into in the closure of the prediction entry points of the class (`predictAssigned`), the closure
+                             hands the estimator only to sklearn's `check_is_fitted` / `validate_data`, and the same holds for
+                             the closure continued ACROSS the helper object the class delegates to (`helperPure`:
+                             `InterpolatedThresholder` behind `ThresholdOptimizer.interpolated_thresholder_`, `BackendEngine` /
+                             `PytorchEngine` / `TensorflowEngine` behind `_AdversarialFairness.backendEngine_`)
+  * `guardPredict`           every `…src` machine runs its `predict` step THROUGH that flag: with the flag off the state after a
+                             prediction is tainted (no longer the fresh twin), so the `src_*_refines_spec` / `src_predict_does_
+                             not_alter_state` theorems hold only because the lifted lists are what they are today
+
+WHAT COUNTS AS FITTED STATE IN THE HELPER OBJECTS (decision, stated once): attributes of the helper object and of the
+estimator behind `self.base` (rebinding, in-place stores, mutating method calls — containers, torch in-place `…_` methods,
+optimiser `step` / `zero_grad` / `apply_gradients`, RNG draws — also through local aliases such as
+`for p in self.predictor_model.parameters()`): YES, any of them in the prediction closure switches the flag off.
+The train / eval MODE FLAG of a torch module (`model.eval()`, `model.train()`, keras `training=`): NO, it is scratch state,
+PROVIDED (`modeOk`) (1) the prediction closure only ever selects eval mode, (2) every forward pass in the prediction closure
+happens after an unconditional eval-mode selection on that module in the same call, and (3) `train_step` selects train mode
+on that module before its own forward pass (so the flag never carries information from a prediction into a fit or into the
+next prediction).  `PytorchEngine.evaluate` calls `self.predictor_model.eval()` — a write of `module.training` during
+prediction — and this is how it is accounted for.
+
+STILL MODELLED, NOT LIFTED: the `.retSelf` results of the EG / TO / CR steps (`fitReturns` is lifted and proved to be
+`["self"]` for all classes, but only `gsStep` (rule flag) and `advStepSrc` compute their result from it), and
+"pickle = identity on the modelled state".
 
 The link "lifted data → behaviour" is the modelled assumption that rebinding `self.<name>` (assignment,
 augmented assignment, `setattr` with a literal name, `del`) in the class's own methods is the only way the
@@ -38,12 +62,65 @@ def estimators : List EstCls := [.TO, .EG, .GS, .CR, .ADV, .ADVC, .ADVR]
 /-- code outside the class that is handed the estimator during prediction and is trusted not to alter it -/
 def trustedPredictCallees : List String := ["check_is_fitted", "validate_data"]
 
+/-- functions that receive an attribute of a helper object during prediction and are trusted not to alter it:
+    `_get_soft_predictions(estimator_, X, _predict_method)` calls the wrapped estimator's own prediction method -/
+def trustedHelperAttrArgs : List String :=
+  ["_get_soft_predictions(estimator_)", "_get_soft_predictions(_predict_method)"]
+
 /-- … during fit (`cb` = user callback of the adversarial estimators, `self.backend_` = the backend engine
     constructor, both documented extension points that receive the estimator) -/
 def trustedFitCallees : List String :=
   ["check_is_fitted", "validate_data", "is_classifier", "type", "cb", "self.backend_"]
 
 def subset (a b : List String) : Bool := a.all (fun x => b.contains x)
+
+/-! ### predict purity, derived from the lifted lists -/
+
+/-- calls on attribute objects during prediction that are NOT followed by the lifter and are trusted not to alter the
+    estimator: the prediction methods of the wrapped (cloned) base estimators (`predictors_`, `_hs` = the callables
+    `ExponentiatedGradient` stored per iteration), `FloatTransformer.inverse_transform` and the predictor function chosen at
+    set-up time (a threshold / argmax / identity function) -/
+def trustedPredictObjectCalls : List String :=
+  ["predictors_.predict", "predictors_.predict_proba", "_hs()", "_y_transform.inverse_transform", "predictor_function_()"]
+
+/-- the mode flag of the modules of helper class `h` is scratch state (see the file header) -/
+def modeOk (h : HelperCls) : Bool :=
+  (helperPredictModeCalls h).all (fun m => m.2 == "eval") &&
+  (helperPredictForwardModes h).all (fun m => m.2 == "eval") &&
+  (helperPredictModeCalls h).all (fun m =>
+    (helperTrainStepForwardModes h).contains (m.1, "train") &&
+    !(helperTrainStepForwardModes h).contains (m.1, "eval") &&
+    !(helperTrainStepForwardModes h).contains (m.1, "unset"))
+
+/-- the closure of the prediction entry points inside helper class `h` writes nothing, hands the helper object and its
+    attributes to trusted code only, and treats the mode flag as scratch state -/
+def helperPure (h : HelperCls) : Bool :=
+  (helperPredictWrites h).isEmpty && subset (helperPredictSelfEscapes h) trustedPredictCallees &&
+  subset (helperPredictAttrArgs h) trustedHelperAttrArgs && modeOk h
+
+/-- every method the class calls on its helper object was found and analysed in every helper class behind it -/
+def helperCallsResolved (c : EstCls) : Bool :=
+  (helpersOf c).all (fun h => (helperPredictCalls c).all (fun m =>
+    (helperPredictClosure h).any (fun q => q.endsWith ("." ++ m))))
+
+/-- THE predict-purity flag of class `c` -/
+def predictPureSrc (c : EstCls) : Bool :=
+  (predictAssigned c).isEmpty && subset (predictSelfEscapes c) trustedPredictCallees &&
+  subset (predictOtherCalls c) trustedPredictObjectCalls && helperCallsResolved c && (helpersOf c).all helperPure
+
+/-- run the `predict` step of `M` through a purity flag: flag off = the state after a prediction is `taint`ed -/
+def guardPredict {σ : Type} (pure : Bool) (taint : σ → σ) (M : Machine σ) : Machine σ :=
+  ⟨M.init, fun s o => match o with
+    | .predict k => (if pure then (M.step s (.predict k)).1 else taint (M.step s (.predict k)).1, (M.step s (.predict k)).2)
+    | o => M.step s o⟩
+
+/-- what an impure prediction does to the modelled state: the fitted part no longer is the one a fresh twin has -/
+def toTaint (s : TOState) : TOState := { s with fitted := s.fitted.map (fun p => (p.1 ++ [p.2], p.2)) }
+def toPreTaint (s : TOPreState) : TOPreState := { s with fitted := s.fitted.map (fun p => (p.1 ++ [p.2], p.2)) }
+def gsTaint (s : GSState) : GSState := { s with bestIdx := none }
+def egTaint (s : EGState) : EGState := { s with fitted := s.fitted.map (fun p => (p.1, Nu.auto ⟨0, 0⟩)) }
+def crTaint (s : CRState) : CRState := { s with fitted := s.fitted.map (fun d => ⟨d.id + 1000, d.width⟩) }
+def advTaint (s : AdvState) : AdvState := { s with engine := s.engine.map (fun h => h ++ h ++ [⟨0, 0⟩]) }
 
 /-! ### rule flags -/
 
@@ -71,15 +148,24 @@ def clonesBeforeFit (c : EstCls) : Bool := (fitReceivers c).all (fun r => r.2.al
 def toClones : Bool := clonesBeforeFit .TO && (fitReceivers .TO).any (fun r => r.1 = "self.estimator_")
 
 /-- ThresholdOptimizer, prefit=True branch of `fit`: does it call `.fit` on anything? (lifted) -/
-def TOPreSrc (h0 : List Data) : Machine TOPreState := TOPre toPrefitRefits h0
+def TOPreRaw (h0 : List Data) : Machine TOPreState := TOPre toPrefitRefits h0
+def TOPreSrc (h0 : List Data) : Machine TOPreState := guardPredict (predictPureSrc .TO) toPreTaint (TOPreRaw h0)
 
 def gsRules : GSRules := ⟨retRule .GS, momentRule .GS⟩
 def egRules : EGRules := ⟨momentRule .EG, nuRule⟩
 
-def GSsrc : Machine GSState := GS gsRules
-def EGsrc (nuGiven : Bool) : Machine EGState := EG egRules nuGiven
-def TOsrc : Machine TOState := TO toClones
-def CRsrc : Machine CRState := CR crRule
+/-- the machines under the lifted rule flags, prediction step as hand-written (state untouched) … -/
+def GSraw : Machine GSState := GS gsRules
+def EGraw (nuGiven : Bool) : Machine EGState := EG egRules nuGiven
+def TOraw : Machine TOState := TO toClones
+def CRraw : Machine CRState := CR crRule
+
+/-- … and with the prediction step run through the lifted purity flag: these are the machines the driver runs and the
+    `src_*` theorems are about -/
+def GSsrc : Machine GSState := guardPredict (predictPureSrc .GS) gsTaint GSraw
+def EGsrc (nuGiven : Bool) : Machine EGState := guardPredict (predictPureSrc .EG) egTaint (EGraw nuGiven)
+def TOsrc : Machine TOState := guardPredict (predictPureSrc .TO) toTaint TOraw
+def CRsrc : Machine CRState := guardPredict (predictPureSrc .CR) crTaint CRraw
 
 /-! ### "every fit overwrites all fitted state a prediction can see" -/
 
@@ -129,7 +215,8 @@ def advStepSrc (warmStart : Bool) (s : AdvState) : Op → AdvState × Res
   | .pickle => (s, if s.engine.isSome then .raised .pickling else .ok)
   | .clone => (advInit, .ok)
 
-def ADVsrc (warmStart : Bool) : Machine AdvState := ⟨advInit, advStepSrc warmStart⟩
+def ADVraw (warmStart : Bool) : Machine AdvState := ⟨advInit, advStepSrc warmStart⟩
+def ADVsrc (warmStart : Bool) : Machine AdvState := guardPredict (predictPureSrc .ADV) advTaint (ADVraw warmStart)
 
 /-! ### driver glue -/
 
@@ -160,7 +247,10 @@ def flagsLine : String :=
   " clone.GS=" ++ (if clonesBeforeFit .GS then "1" else "0") ++
   " prefit.TO=" ++ (if toPrefitRefits then "0" else "1") ++ " clone.EG=" ++ (if clonesBeforeFit .LAG && clonesBeforeFit .EG then "1" else "0") ++
   " ret=" ++ (if estimators.all (fun c => fitReturns c == ["self"]) then "1" else "0") ++
-  " predictPure=" ++ (if estimators.all (fun c => (predictAssigned c).isEmpty) then "1" else "0") ++
+  " predictPure=" ++ (if estimators.all predictPureSrc then "1" else "0") ++
+  " helperPure=" ++ ",".intercalate (allHelpers.map (fun h => if helperPure h then "1" else "0")) ++
+  " helperClosure=" ++ "|".intercalate (allHelpers.flatMap helperPredictClosure) ++
+  " helperCalls=" ++ "|".intercalate (helperPredictCalls .TO) ++ "," ++ "|".intercalate (helperPredictCalls .ADV) ++
   " overwritesAll=" ++ (if [EstCls.TO, .EG, .GS].all (fun c => (fitHistoryReads c).isEmpty && (predictReadsNotOverwritten c).isEmpty)
       then "1" else "0") ++
   " paramsAssigned=" ++ ",".intercalate (estimators.map (fun c => "|".intercalate (paramsAssignedInFit c ++ paramsMutatedInFit c)))
